@@ -1162,6 +1162,7 @@ fn streaming_case(ctx: &mut Ctx, rng: &mut ChaCha20Rng) {
 }
 
 pub fn run(ctx: &mut Ctx) {
+    crate::schemes::set_custom_params(true);
     let n = ctx.n(60, 1200);
     ctx.run_cases("marlin", n / 2, |ctx, _i, rng| marlin(ctx, rng));
     ctx.run_cases("sonic", n / 2, |ctx, _i, rng| sonic(ctx, rng));
